@@ -3,26 +3,24 @@
 From Fibre Require Import Common.Base Cache.PolicySpec Cache.PolicyLru Cache.PolicySieve
      Proofs.PolicyLruProofs Proofs.PolicySieveProofs.
 
-(* Full contract (incl. "re-admitting a key updates its cost"): LRU, SIEVE *)
+(* Full contract (incl. "re-admitting a key updates its cost"): LRU, SIEVE, CLOCK *)
 Theorem C14_Lru_contract : contract admit_full LruP.
 Proof. exact lru_contract. Qed.
 
 Theorem C14_Sieve_contract : contract admit_full SieveP.
 Proof. exact sieve_contract. Qed.
 
-(* FIFO and CLOCK satisfy every clause except re-admission (finding F-19):
-   the full statement is refuted on the faithful model, the weaker holds. *)
+Theorem C14_Clock_contract : contract admit_full ClockP.
+Proof. exact clock_contract. Qed.
+
+(* FIFO satisfies every clause except re-admission (finding F-19-fifo, pinned by an
+   upstream unit test): the full statement is refuted on the faithful model, the
+   weaker holds. *)
 Theorem C14_Fifo_contract_except_F19 : contract admit_keep_old FifoP.
 Proof. exact fifo_contract_keep_old. Qed.
 
 Theorem C14_Fifo_refuted_F19 : ~ contract admit_full FifoP.
 Proof. exact fifo_readmit_refuted. Qed.
-
-Theorem C14_Clock_contract_except_F19 : contract admit_keep_old ClockP.
-Proof. exact clock_contract_keep_old. Qed.
-
-Theorem C14_Clock_refuted_F19 : ~ contract admit_full ClockP.
-Proof. exact clock_readmit_refuted. Qed.
 
 (* LRU evicts least-recently-used first; FIFO oldest-inserted first *)
 Theorem C14_Lru_order : forall l n,
